@@ -171,4 +171,17 @@ def shadow_clash(rng):
                 sup="ctrl")
 
 
+def train_tie(rng):
+    """A recorded system with a trainable (constant, zero-order-hold) communication delay whose messages arrive EXACTLY at the consumer's step
+    starts (grid delays, default phase = expected arrival): the compiled replay re-derives the arrivals from the send times and the delay and
+    must hand the tied message to the same step as the threaded runtime did (seeded change C01-g: >= instead of > in apply_delay)."""
+    d = rng.choice([1, 2])
+    return dict(nodes=[_n("sensor", 0, 2, 1, [1]), _n("ctrl", 1, 4, 1, [1]), _n("act", 2, 2, 1, [1])],
+                conns=[dict(_c("sensor", "ctrl", window=2, delay=d, cdist=[d]), train=dict(min=0, max=4, d0=d)),
+                       _c("ctrl", "act", window=2, delay=1, cdist=[1]),
+                       _c("act", "sensor", name="in_act", skip=True, window=1, delay=1, cdist=[1])],
+                sup="ctrl")
+
+
+FAMILIES.update(train_tie=train_tie)
 FAMILIES.update(overrun_freq=overrun_freq, shadow_clash=shadow_clash)
